@@ -111,9 +111,19 @@ def gen_case(rng, tier):
         declare = {"O": shuffled(p["nO"])}
         if rng.random() < .5:
             declare.update({"S": shuffled(p["n"]), "A": shuffled(p["nA"])})
-    variant = {"declare": declare, "labels": _labels(rng, p), "int01": rng.random() < .3, "dist_types": rng.random() < .3, "share_objects": rng.random() < .4,
+    # multi-step filtering histories on ONE belief object updated in place: same action repeated, alternating, random
+    histories = []
+    for kind in ("vec", "dict"):
+        for _h in range(2):
+            pat = rng.choice(["same", "alternate", "random"])
+            a0, a1 = rng.randrange(p["nA"]), rng.randrange(p["nA"])
+            steps = [[a0 if pat == "same" else (a0, a1)[t % 2] if pat == "alternate" else rng.randrange(p["nA"]),
+                      rng.randrange(p["nO"])] for t in range(rng.randint(3, 6))]
+            histories.append({"kind": kind, "pattern": pat, "start": rng.randrange(len(beliefs)), "steps": steps,
+                              "sparse": rng.random() < .5})
+    variant = {"declare": declare, "shared_belief_objects": rng.random() < .5, "labels": _labels(rng, p), "int01": rng.random() < .3, "dist_types": rng.random() < .3, "share_objects": rng.random() < .4,
                "order": rng.choice(["matrix-first", "belief-first", "dict-first"])}
-    return {"pomdp": p, "beliefs": beliefs, "explicit_lists": explicit, "variant": variant}
+    return {"pomdp": p, "beliefs": beliefs, "explicit_lists": explicit, "variant": variant, "histories": histories}
 
 
 # ---- literals -----------------------------------------------------------------
@@ -282,6 +292,46 @@ def oracle_ba(case, res, bi, j, only=None):
     return None
 
 
+HTOL = F(1, 10**12)       # in-place histories: relative, against the exact Bayes quantities of the CURRENT contents
+
+
+def oracle_history(case, res, steps):
+    """first step of an in-place filtering history whose outputs are not the Bayes quantities of the belief object's
+    contents at the time of the call (contents are floats: exact rationals, normalised only up to rounding; the
+    posterior does not depend on the scale, the predictive distribution is compared with the marginal of the contents)"""
+    P, R, absf, ini, Ob = model_arrays(case, res)
+    n, nO = len(res["state_list"]), len(res["observation_list"])
+
+    def rel(x, y):
+        return abs(vlib.frac(x) - y) <= HTOL * abs(y)
+    for t, st in enumerate(steps):
+        b = [vlib.frac(x) for x in st["contents"]]
+        ai = st["ai"]
+        WZ = [gen_pomdp.joint_exact(P, Ob, b, ai, o) for o in range(nO)]
+        at = {"step": t, "action_index": ai, "contents": [float(x) for x in b]}
+        if st["kind"] == "vec":
+            if len(st["pred_vec"]) != nO or any(not rel(x, Z) for x, (W, Z) in zip(st["pred_vec"], WZ)):
+                return dict(at, cmp="pred_vec", clause="vectorised predictive observation distribution is not the exact marginal",
+                            got=[float(vlib.frac(x)) for x in st["pred_vec"]], marginal=[str(Z) for W, Z in WZ])
+            for o, (W, Z) in enumerate(WZ):
+                ref = [w / Z for w in W] if Z > 0 else [F(0)] * n
+                if len(st["est_vec"][o]) != n or any(not rel(x, y) for x, y in zip(st["est_vec"][o], ref)):
+                    return dict(at, cmp="est_vec", clause="vectorised posterior is not the Bayes posterior", observation_index=o,
+                                got=[float(vlib.frac(x)) for x in st["est_vec"][o]], bayes=[float(x) for x in ref])
+        else:
+            d = {k: vlib.frac(v) for k, v in st["pred_dict"]}
+            if set(d) != {o for o in range(nO) if WZ[o][1] > 0} or any(not rel(d[o], WZ[o][1]) for o in d):
+                return dict(at, cmp="pred_dict", clause="dictionary predictive observation distribution is not the exact marginal",
+                            got={k: float(v) for k, v in d.items()}, marginal=[str(Z) for W, Z in WZ])
+            for o, (W, Z) in enumerate(WZ):
+                d = {k: vlib.frac(v) for k, v in st["est_dict"][o]}
+                ref = {ns: W[ns] / Z for ns in range(n) if W[ns] > 0} if Z > 0 else {}
+                if set(d) != set(ref) or any(not rel(d[k], ref[k]) for k in d):
+                    return dict(at, cmp="est_dict", clause="dictionary posterior is not the Bayes posterior", observation_index=o,
+                                got={k: float(v) for k, v in d.items()}, bayes={k: float(v) for k, v in ref.items()})
+    return None
+
+
 def stats_ba(case, res, bi, ai, cnt):
     """input-distribution counters from the exact model"""
     sl, ol = res["state_list"], res["observation_list"]
@@ -398,6 +448,18 @@ def _run(ctx, tier):
             ctx.violation("C07:observation_matrix:differs-from-observation_dist",
                           {"case": case, "observation_matrix": res["observation_matrix"],
                            "clause": "observation_matrix[a, ns, o] is not observation_dist(a, ns).prob(o)"}, found=True)
+        for hi, steps in enumerate(res.get("histories", [])):
+            feats["in_place_history_steps"] = feats.get("in_place_history_steps", 0) + len(steps)
+            for t in range(1, len(steps)):
+                feats["in_place_steps_same_action_as_previous"] = feats.get("in_place_steps_same_action_as_previous", 0) \
+                    + int(steps[t]["ai"] == steps[t - 1]["ai"])
+            why = oracle_history(case, res, steps)
+            if why:
+                ctx.violation("C07:%s:%s" % (why["cmp"], why["clause"]),
+                              {"case": case, "in_place_history": case["histories"][hi], "history_index": hi,
+                               "failing_clause": why, "impl_steps": steps,
+                               "note": "one belief object updated in place between calls; every call is judged against "
+                                       "the object's contents at the time of the call"}, found=True)
         if res.get("mutated_inputs"):
             ctx.violation("C07:caller-objects-mutated", {"case": case, "mutated": res["mutated_inputs"]}, found=False)
         if not res.get("stale_results_unchanged", True):
@@ -412,7 +474,7 @@ def _run(ctx, tier):
         v_ = case.get("variant", {})
         dk = "declared_lists=%s" % ("none" if not v_.get("declare") else "obs+state+action" if v_["declare"].get("S") else "obs")
         feats[dk] = feats.get(dk, 0) + 1
-        for k_ in ("order", "int01", "dist_types", "share_objects"):
+        for k_ in ("order", "int01", "dist_types", "share_objects", "shared_belief_objects"):
             key = "variant_%s=%s" % (k_, v_.get(k_))
             feats[key] = feats.get(key, 0) + 1
         key = "labels=%s" % ((v_.get("labels") or {}).get("scheme", "int"))
